@@ -453,7 +453,7 @@ func isListPtr(t types.Type) bool {
 }
 
 var syncTypeMap = map[string]string{
-	"sync.Mutex": "Mutex", "sync.RWMutex": "RWMutex", "sync.Once": "Once", "sync.Map": "Map", "sync.Pool": "Pool", "sync.WaitGroup": "WaitGroup",
+	"sync.Mutex": "Mutex", "sync.RWMutex": "RWMutex", "sync.Once": "Once", "sync.Map": "Map", "sync.Pool": "Pool", "sync.WaitGroup": "WaitGroup", "sync.Cond": "Cond", "sync.NewCond": "NewCond",
 	"sync/atomic.Value": "AtomicValue", "sync/atomic.Int32": "AtomicInt32", "sync/atomic.Int64": "AtomicInt64", "sync/atomic.Bool": "AtomicBool",
 	"sync/atomic.Uint32": "AtomicUint32", "sync/atomic.Uint64": "AtomicUint64", "sync/atomic.Pointer": "AtomicPointer",
 }
@@ -539,7 +539,7 @@ func (r *rewriter) rewriteFile() {
 					x.X, x.Sel = ast.NewIdent("simrt"), ast.NewIdent(to)
 					r.usedSimrt = true
 				} else if !syncOK[full] {
-					r.unsupported(x, full+" (only Mutex, RWMutex, Once, Map, Pool, WaitGroup are simulated)")
+					r.unsupported(x, full+" (only Mutex, RWMutex, Once, Map, Pool, WaitGroup, Cond are simulated)")
 				}
 			case path == "sync/atomic":
 				if to, ok := syncTypeMap[full]; ok {
@@ -553,11 +553,11 @@ func (r *rewriter) rewriteFile() {
 				}
 			case path == "time":
 				switch x.Sel.Name {
-				case "Now", "Since", "Until":
+				case "Now", "Since", "Until", "Sleep":
 					x.X = ast.NewIdent("simrt")
 					r.usedSimrt = true
 					sites = append(sites, site{ID: len(sites), Class: "CLOCK", Pos: r.pos(x), Func: "", Expr: "time." + x.Sel.Name})
-				case "Sleep", "After", "AfterFunc", "NewTimer", "NewTicker", "Tick":
+				case "After", "AfterFunc", "NewTimer", "NewTicker", "Tick":
 					r.unsupported(x, full+" (timers are not simulated)")
 				}
 			case unsupportedPkgs[path]:
